@@ -342,6 +342,11 @@ def sym_str(x="", *a):
             return x
         raise Unsupported("str() of symbolic bytes")
     if isinstance(x, SymInt):
+        if x.hi - x.lo < 64:
+            v = E.cur().choose_value(x.t, "str(int)")
+            if v >= (1 << (x.w - 1)):
+                v -= 1 << x.w
+            return _b.str(v)
         return Opaque("DecStr", [x])
     if isinstance(x, SymChoice):
         return x._lift(lambda v: sym_str(v))
